@@ -114,6 +114,7 @@ type Node struct {
 	N      *netceptor.Netceptor
 	Cancel context.CancelFunc
 	ends   map[*Link]*MemBackend
+	sends  map[*Link]*StreamBackend // links carried as framed byte streams (Spec.Frame non-empty)
 }
 
 // Link joins two nodes. The supervisor keeps it established while it is desired up and both nodes live.
@@ -131,6 +132,20 @@ type Link struct {
 	cur     *SessionPair
 	gen     int
 	silent  bool
+	stream  [2]*ChunkConn
+}
+
+// StreamSplits reports how many reads of the current framed stream ended inside buffered data (both directions).
+func (l *Link) StreamSplits() int64 {
+	l.mu.Lock()
+	defer l.mu.Unlock()
+	var n int64
+	for _, c := range l.stream {
+		if c != nil {
+			n += c.SplitReads()
+		}
+	}
+	return n
 }
 
 type Mesh struct {
@@ -152,7 +167,7 @@ func NewMesh(opts NodeOpts) *Mesh {
 func (m *Mesh) StartNode(id string) *Node {
 	ctx, cancel := context.WithCancel(m.ctx)
 	n := netceptor.NewWithConsts(ctx, id, 16384, m.Opts.RouteUpdate, m.Opts.ServiceAd, time.Hour, m.Opts.MaxHops, m.Opts.MaxIdle)
-	node := &Node{ID: id, N: n, Cancel: cancel, ends: map[*Link]*MemBackend{}}
+	node := &Node{ID: id, N: n, Cancel: cancel, ends: map[*Link]*MemBackend{}, sends: map[*Link]*StreamBackend{}}
 	m.mu.Lock()
 	m.Nodes[id] = node
 	links := append([]*Link{}, m.Links...)
@@ -176,6 +191,14 @@ func (m *Mesh) attach(node *Node, l *Link) {
 		mods = append(mods, netceptor.BackendConnectionCost(cost+17), netceptor.BackendNodeCost(map[string]float64{peer: cost}))
 	} else {
 		mods = append(mods, netceptor.BackendConnectionCost(cost))
+	}
+	if len(l.Spec.Frame) > 0 {
+		sb := NewStreamBackend()
+		_ = node.N.AddBackend(sb.EB, mods...)
+		m.mu.Lock()
+		node.sends[l] = sb
+		m.mu.Unlock()
+		return
 	}
 	_ = node.N.AddBackend(be, mods...)
 	m.mu.Lock()
@@ -230,13 +253,40 @@ func (m *Mesh) supervise(l *Link) {
 		m.mu.Lock()
 		a, b := m.Nodes[l.A], m.Nodes[l.B]
 		var ba, bb *MemBackend
+		var sa, sb *StreamBackend
 		if a != nil {
-			ba = a.ends[l]
+			ba, sa = a.ends[l], a.sends[l]
 		}
 		if b != nil {
-			bb = b.ends[l]
+			bb, sb = b.ends[l], b.sends[l]
 		}
 		m.mu.Unlock()
+		if up && sa != nil && sb != nil {
+			// framed byte stream through receptor's own framer, cut into the drawn chunk sizes in both directions
+			ca, cb := NewChunkConnPair(l.Spec.Frame, l.Spec.Frame)
+			l.mu.Lock()
+			l.stream = [2]*ChunkConn{ca, cb}
+			l.gen++
+			l.mu.Unlock()
+			sa.Attach(ca)
+			sb.Attach(cb)
+			select {
+			case <-ca.Done():
+				cb.Close()
+			case <-cb.Done():
+				ca.Close()
+			case <-m.ctx.Done():
+				ca.Close()
+				cb.Close()
+				return
+			}
+			select {
+			case <-m.ctx.Done():
+				return
+			case <-time.After(100 * time.Millisecond):
+			}
+			continue
+		}
 		if !up || ba == nil || bb == nil {
 			select {
 			case <-m.ctx.Done():
@@ -283,6 +333,16 @@ func (l *Link) SetUp(up bool) {
 	l.mu.Unlock()
 	if !up && cur != nil {
 		cur.Cut()
+	}
+	if !up {
+		l.mu.Lock()
+		st := l.stream
+		l.mu.Unlock()
+		for _, c := range st {
+			if c != nil {
+				c.Close()
+			}
+		}
 	}
 }
 
